@@ -291,9 +291,56 @@ def same_named_functions(ctx, i, rng):
         programs.forget(mod, path)
 
 
+CONFIG_PARAM_SRC = """
+from typing import Dict, Optional
+CALLS = []
+class Tool:
+    def __init__(self, scale: int = 1):
+        CALLS.append(("Tool.__init__", dict(scale=scale)))
+    def run(self, config: Optional[Dict[str, int]] = None, n: int = 1):
+        CALLS.append(("Tool.run", dict(config=config, n=n)))
+        return ("run", config, n)
+    def show(self, depth: int = 0):
+        CALLS.append(("Tool.show", dict(depth=depth)))
+        return ("show", depth)
+"""
+
+
+def method_parameter_named_config(ctx, i, rng):
+    """a method whose own parameter is called 'config' (the name auto_cli uses for its config file option where the component
+    has no such parameter): the method receives what was given for it"""
+    o = call(programs.write_module, ctx.workdir, CONFIG_PARAM_SRC, "c12cfg")
+    if not o.accepted:
+        ctx.inconclusive(f"module does not import: {o.brief()}")
+        return
+    mod, path = o.value
+    try:
+        val = {rng.choice(["a", "b"]): rng.randrange(9)}
+        n = rng.randrange(2, 9)
+        argv, exp = rng.choice([
+            (["run", f"--config={json.dumps(val)}", f"--n={n}"], ("run", val, n)),
+            (["--scale=2", "run", "--config", json.dumps(val)], ("run", val, 1)),
+            (["run", f"--n={n}"], ("run", None, n)),
+            (["show", "--depth=4"], ("show", 4)),
+        ])
+        mod.CALLS.clear()
+        oc = call(auto_cli, mod.Tool, args=list(argv), exit_on_error=False)
+        ctx.count("mon.method_parameter_named_config")
+        ctx.evaluation(("config-param", tuple(a.split("=")[0] for a in argv)))
+        w = dict(shape="method-parameter-named-config", argv=argv)
+        if not oc.accepted:
+            ctx.violation("auto_cli", f"valid-invocation-failed/method-parameter-named-config/{oc.exc_type}", dict(w, outcome=oc.brief()))
+        elif oc.value != exp:
+            ctx.violation("auto_cli", "wrong-binding/method-parameter-named-config", dict(w, expected=exp, got=short(oc.value), calls=short(mod.CALLS)))
+    finally:
+        programs.forget(mod, path)
+
+
 def case(ctx, i, rng):
     if i % 9 == 4:
         failing_cli_with_default_config(ctx, i, rng)
+    if i % 9 == 2:
+        method_parameter_named_config(ctx, i, rng)
     if i % 9 == 7:
         same_named_functions(ctx, i, rng)
     kind, src, comps, entry = gen_program(rng)
